@@ -56,6 +56,9 @@ def contract(rep, S, f, clauses):
 
 
 def run(prog, rep, tier):
+    # the graph argument is a weight matrix of any sign: which nodes get a forest / are sources may depend on it only through its zero pattern
+    # (column sums of signed weights cancel: a node with parents would be bootstrapped as a source)
+    pattern_entries(prog, rep, [(SE + "DRFNet.__init__", "graph")], rule="PAT")
     # ---------------------------------------------------------------- contract: BayesianNetwork.__init__
     f = need(prog, SE + "BayesianNetwork.__init__")
     S = Sym(prog)
